@@ -11,37 +11,51 @@
 
 using namespace CDNS;
 
+// fills a large piece of the stack (and a few heap blocks) with a byte value: whatever a later call leaves uninitialised
+// in its locals / fresh allocations then holds that value
+__attribute__((noinline)) static void scribble(unsigned char v)
+{
+    volatile unsigned char a[1 << 17];
+    for (size_t i = 0; i < sizeof(a); i++) a[i] = v;
+    for (int k = 0; k < 64; k++) { size_t n = 16 << (k % 8); char* p = static_cast<char*>(malloc(n)); if (p) { memset(p, v, n); free(p); } }
+}
+static uint64_t g_render_hash = 0;
+static void mix_text(const std::string& s) { for (unsigned char c : s) { g_render_hash ^= c; g_render_hash *= 1099511628211ULL; } }
+#define RENDER(expr) do { std::string t_ = (expr); total += t_.size(); mix_text(t_); } while (0)
+
 static json render_all(const std::string& bytes)
 {
     json out = json::object();
     size_t total = 0;
+    g_render_hash = 1469598103934665603ULL;
     try {
         std::istringstream is(bytes, std::ios::binary);
         CdnsReader reader(is);
-        total += reader.m_file_preamble.string().size();
+        RENDER(reader.m_file_preamble.string());
         bool eof = false;
         while (true) {
             CdnsBlockRead blk = reader.read_block(eof);
             if (eof) break;
-            total += blk.string().size();
-            total += blk.m_block_preamble.string().size();
-            if (blk.m_block_statistics) total += blk.m_block_statistics->string().size();
+            RENDER(blk.string());
+            RENDER(blk.m_block_preamble.string());
+            if (blk.m_block_statistics) RENDER(blk.m_block_statistics->string());
             bool end = false;
-            while (true) { GenericQueryResponse g = blk.read_generic_qr(end); if (end) break; total += g.string().size(); }
-            while (true) { GenericAddressEventCount g = blk.read_generic_aec(end); if (end) break; total += g.string().size(); }
-            while (true) { GenericMalformedMessage g = blk.read_generic_mm(end); if (end) break; total += g.string().size(); }
-            for (auto& x : blk.m_query_responses) total += x.string().size();
-            for (auto& x : blk.m_malformed_messages) total += x.string().size();
-            for (auto& x : blk.m_classtype) total += x.string().size();
-            for (auto& x : blk.m_qr_sig) total += x.string().size();
-            for (auto& x : blk.m_qrr) total += x.string().size();
-            for (auto& x : blk.m_rr) total += x.string().size();
-            for (auto& x : blk.m_malformed_message_data) total += x.string().size();
+            while (true) { GenericQueryResponse g = blk.read_generic_qr(end); if (end) break; RENDER(g.string()); }
+            while (true) { GenericAddressEventCount g = blk.read_generic_aec(end); if (end) break; RENDER(g.string()); }
+            while (true) { GenericMalformedMessage g = blk.read_generic_mm(end); if (end) break; RENDER(g.string()); }
+            for (auto& x : blk.m_query_responses) RENDER(x.string());
+            for (auto& x : blk.m_malformed_messages) RENDER(x.string());
+            for (auto& x : blk.m_classtype) RENDER(x.string());
+            for (auto& x : blk.m_qr_sig) RENDER(x.string());
+            for (auto& x : blk.m_qrr) RENDER(x.string());
+            for (auto& x : blk.m_rr) RENDER(x.string());
+            for (auto& x : blk.m_malformed_message_data) RENDER(x.string());
         }
         out["fin"] = "eof";
     } catch (CdnsDecoderEnd&) { out["fin"] = "end"; }
     catch (std::exception& e) { out["fin"] = "err"; }
     out["rendered"] = total;
+    out["hash"] = g_render_hash;
     return out;
 }
 
@@ -113,8 +127,17 @@ int main(int argc, char** argv)
             for (const char* entry : {"reader+accessors", "renderers", "blocks kept by move"}) {
                 vh::set_context(json{{"entry", entry}, {"input", name}});
                 long t0 = vh::cpu_ms();
-                json r = std::string(entry) == "renderers" ? render_all(bytes)
-                       : std::string(entry) == "blocks kept by move" ? kept_dump(bytes) : vr::reader_dump(bytes);
+                json r;
+                if (std::string(entry) == "renderers") {
+                    // rendered twice, with the stack and fresh heap blocks pre-filled with different bytes: text that differs
+                    // was made of memory the renderer never initialised (or does not own)
+                    scribble(0xAB);
+                    r = render_all(bytes);
+                    scribble(0x5A);
+                    json r2 = render_all(bytes);
+                    if (r["fin"] == r2["fin"] && r["hash"] != r2["hash"]) r["fin"] = "text-depends-on-uninitialised-memory";
+                }
+                else r = std::string(entry) == "blocks kept by move" ? kept_dump(bytes) : vr::reader_dump(bytes);
                 long ms = vh::cpu_ms() - t0;
                 std::string fin = r["fin"];
                 vh::trace().emit({{"e", "X"}, {"entry", entry}, {"input", name}, {"outcome", fin == "eof" ? "ok" : fin},
